@@ -190,8 +190,14 @@ def run_roundtrip(c):
         # a size can only drift detectably if the policy covers it: the tool records a modulus / key size only when its probes could measure one (e.g. an 8192-bit-only moduli file is never measured)
         made = open(pf).read()
         covered_dh = 'dh_modulus_sizes' in made and GEX256 in made.split('dh_modulus_sizes', 1)[1].split('\n', 1)[0]
-        perts = [x for x in perts if not (x[0] == 'modulus' and not covered_dh)]
-        perts = [x for x in perts if not (x[0] in ('size', 'ca') and 'host_key_sizes' not in made)]
+        # ... which is decided by the C12 model of the probe sequence (what the server hands out), not by what this tree happened to write: a measurable modulus missing from the made policy shows up below as an undetected drift
+        from props import c12
+        measurable_dh = bool(script.get('gex')) and GEX256 in script['kex']['kex'] and c12.model(script['gex'], 'openssh')[0] is not None
+        if measurable_dh:
+            counters['measurable_modulus_peers'] = 1
+        perts = [x for x in perts if not (x[0] == 'modulus' and not (covered_dh or measurable_dh))]
+        can_probe = any(x in gen.PROBE_KEX for x in script['kex']['kex'])
+        perts = [x for x in perts if not (x[0] in ('size', 'ca') and 'host_key_sizes' not in made and not can_probe)]
         if not c['all']:
             sizes = [x for x in perts if x[0] in ('size', 'ca', 'modulus')]
             lists = [x for x in perts if x[0] not in ('size', 'ca', 'modulus')]
